@@ -10,7 +10,7 @@ CONSTANTS EMIT, Small
 
 RA == <<"r","a">>  RB == <<"r","b">>  RC == <<"r","c">>  RD == <<"r","d">>
 T == IF Small THEN {<<"r">>, RA, <<"r","a","x">>, RB, RC}
-     ELSE {<<"r">>, RA, <<"r","a","x">>, RB, <<"r","b","z">>, RC, RD}
+     ELSE {<<"r">>, RA, <<"r","a","x">>, RB, <<"r","b","z">>, RC}
 Leaves == {m \in T : StrictDesc(T, m) = {}}
 Cand == {e \in Leaves \X (T \ {<<"r">>}) : e[1] # e[2] /\ ~Anc(e[2], e[1])}
 
@@ -22,8 +22,8 @@ Maps == IF Small
         ELSE { ("X" :> {RA} @@ "Y" :> {RB}),
                ("X" :> {RA, RC} @@ "Y" :> {RB}),
                ("X" :> {RA} @@ "Y" :> {RB} @@ "Z" :> {RC}),
-               ("X" :> {RA, RD} @@ "Y" :> {RB} @@ "Z" :> {RC}),
-               ("X" :> {RA} @@ "Y" :> {RB, RD} @@ "Z" :> {RC}) }
+               ("X" :> {<<"r","a","x">>} @@ "Y" :> {RB}),
+               ("X" :> {RA} @@ "Y" :> {<<"r","b","z">>, RC}) }
 
 VARIABLE imports
 vars == <<imports>>
